@@ -1,7 +1,9 @@
 //! E1 scenario driver: `scen <scenario> --seed S --shard i --nshards n --cases N --tier T --out F`
 mod common;
+mod acks;
 mod delivery;
 mod fragdirect;
+mod oversleep;
 
 use common::Shard;
 use vcore::Args;
@@ -12,6 +14,8 @@ fn main() {
     let shard = Shard::from_args(args);
     let rep = match scenario.as_str() {
         "c01" => delivery::run(&shard, "C01", delivery::Mode::Reliable),
+        "c03" => acks::run(&shard),
+        "c31" => oversleep::run(&shard),
         "c02" => delivery::run(&shard, "C02", delivery::Mode::BestEffort),
         "c05" => {
             // (a) direct micro-driver on all cases, (b) end-to-end on `--e2e` cases
